@@ -24,6 +24,10 @@ def run(tier, seed, replay=None):
         src = os.path.join(WORK, "traces", "C09-replay-in.ndjson")
         with open(src, "w") as f:
             f.write("\n".join(lines) + "\n")
+        if meta.get("sub") == "parse":
+            r.gen_validate("replay", ["parse", "--replay"], "Trace_Sink.tla", "Trace_Sink.cfg", 1, classify, core.count_resets, stdin_files=[src],
+                           env={"PROP": "C09"})
+            return r.finish(RULE, write=False)
         r.gen_validate("replay", ["tok", "--replay", "--fields", "raw"], SPEC, CFG, 1, classify, core.count_lines, stdin_files=[src])
         return r.finish(RULE, write=False)
     quick = tier == "quick"
@@ -39,6 +43,13 @@ def run(tier, seed, replay=None):
     r.gen_validate("stride", ["tok", "--mode", "stride", "--chunk", "some"] + F, SPEC, CFG, 4, classify, core.count_lines)
     r.gen_validate("random", ["tok", "--mode", "random", "--n", 600 if quick else 6000, "--maxlen", 60, "--chunk", "some"] + F,
                    SPEC, CFG, N, classify, core.count_lines, timeout=3000)
+    # forwarding clause: in real parses the tree builder hands the sink (set_current_line) exactly the number it received with
+    # the token, before any other sink call made for that token (Trace_Sink, PROP=C09)
+    TS = dict(env={"PROP": "C09"})
+    r.gen_validate("forward-lf-family", ["parse", "--mode", "enum", "--family", "lf", "--k", 3, "--pieces", 14 if quick else 19, "--chunk", "some"],
+                   "Trace_Sink.tla", "Trace_Sink.cfg", N, classify, core.count_resets, timeout=3000, **TS)
+    r.gen_validate("forward-random", ["parse", "--mode", "random", "--n", 600 if quick else 8000, "--maxpieces", 20], "Trace_Sink.tla", "Trace_Sink.cfg",
+                   N, classify, core.count_resets, timeout=3000, **TS)
     if not quick:
         r.gen_validate("enum-lines-k3", ["tok", "--mode", "enum", "--pset", "lines", "--k", 3, "--pieces", 14, "--chunk", "all"] + F,
                        SPEC, CFG, N * 4, classify, core.count_lines, timeout=6000, xmx="4g")
@@ -48,5 +59,6 @@ def run(tier, seed, replay=None):
         "consumed = characters fed minus characters left in the harness-owned BufferQueue at the moment of emission; parse-error "
         "tokens emitted by the character-reference sub-tokenizer while it holds look-ahead that it pushes back are judged "
         "against the interval between the previous token's position and that bound",
-        "set_current_line forwarding by the tree builder is checked in the parser harness (C02/C03 traces)"]
+        "forwarding: the sink must have been told the token's line (set_current_line) before any other call made while that "
+        "token is processed; the sink's initial line is 1"]
     return r.finish(RULE)
